@@ -1,6 +1,9 @@
 package an
 
 import (
+	"golang.org/x/tools/go/ssa"
+	"go/types"
+	"go/token"
 	"fmt"
 	"sort"
 	"strings"
@@ -32,6 +35,26 @@ func runC11(p *Prog, r *Report) {
 		}
 		nGuarded++
 		nAcc += len(fi.Accesses)
+		// a map is a reference: reading the field under its lock and walking the map after
+		// the unlock is an unguarded access to the same map the writers update
+		for _, a := range fi.Accesses {
+			if a.Write || a.PrePub || len(fi.Guard) == 0 {
+				continue
+			}
+			for _, u := range mapAliasUses(a.In) {
+				held := p.heldAbs(a.Fn, u)
+				ok := false
+				for _, g := range fi.Guard {
+					if held[g] {
+						ok = true
+					}
+				}
+				if !ok {
+					r.Bad("C11.1/E3", fi.Key+"@"+p.FuncName(a.Fn)+"/alias", p.InstrPos(u),
+						fmt.Sprintf("the map %s is read into a local under its guard %v and then iterated / indexed here without it (a map value is a reference, not a snapshot): concurrent map access with every writer => crash (\"concurrent map iteration and map write\") or missed entries", fi.Key, fi.Guard))
+				}
+			}
+		}
 		if len(fi.Bad) == 0 {
 			r.OK("C11.1/E3", fi.Key, p.Pos(fi.Field.Pos()), fmt.Sprintf("guard %v (rule %d), %d accesses", fi.Guard, fi.Rule, len(fi.Accesses)))
 			continue
@@ -76,4 +99,62 @@ func runC11(p *Prog, r *Report) {
 
 	r.Describe("C11.3/E1", "no lock is acquired while already held (directly or through a callee)")
 	e1Obligations(p, r, "C11.3/E1", map[string]bool{"double-lock": true, "callee-relock": true})
+}
+
+
+// mapAliasUses: in is a load of a map-typed field; the instructions that iterate, index or
+// update the loaded map value (through locals and merges).
+func mapAliasUses(in ssa.Instruction) []ssa.Instruction {
+	ld, ok := in.(*ssa.UnOp)
+	if !ok || ld.Op != token.MUL {
+		return nil
+	}
+	if _, isMap := ld.Type().Underlying().(*types.Map); !isMap {
+		return nil
+	}
+	var out []ssa.Instruction
+	seen := map[ssa.Value]bool{}
+	var walk func(v ssa.Value, d int)
+	walk = func(v ssa.Value, d int) {
+		if seen[v] || d > 6 || v.Referrers() == nil {
+			return
+		}
+		seen[v] = true
+		for _, ref := range *v.Referrers() {
+			switch x := ref.(type) {
+			case *ssa.Range:
+				if x.X == v {
+					for _, nr := range *x.Referrers() {
+						if nx, ok := nr.(*ssa.Next); ok {
+							out = append(out, nx)
+						}
+					}
+				}
+			case *ssa.Lookup:
+				if x.X == v {
+					out = append(out, x)
+				}
+			case *ssa.MapUpdate:
+				if x.Map == v {
+					out = append(out, x)
+				}
+			case *ssa.Call:
+				if b, ok := x.Call.Value.(*ssa.Builtin); ok && (b.Name() == "len" || b.Name() == "delete") && len(x.Call.Args) > 0 && x.Call.Args[0] == v {
+					out = append(out, x)
+				}
+			case *ssa.Phi:
+				walk(x, d+1)
+			case *ssa.Store:
+				if al, ok := x.Addr.(*ssa.Alloc); ok && x.Val == v {
+					for _, ar := range *al.Referrers() {
+						if u, ok := ar.(*ssa.UnOp); ok && u.Op == token.MUL {
+							walk(u, d+1)
+						}
+					}
+				}
+			}
+		}
+	}
+	walk(ld, 0)
+	return out
 }
